@@ -33,7 +33,10 @@ Record case12 := K12 {
   k_ops : list wop;
   k_log : list (call * outcome);
   k_res : list wres;
-  k_samples : list (N * option (list delta))
+  k_samples : list (N * option (list delta));
+  (* manifest.json at the end of the run: None = no such object; Some (version, replica id,
+     segments as (id, count, size, min, max) with key = NSeg id, next_segment_id) *)
+  k_final : option (N * N * list (N * N * N * N * N) * N)
 }.
 
 Definition delta_oeq (a b : delta) : bool :=
@@ -62,8 +65,22 @@ Definition sample_ok (v : variant) (k : case12) (s : N * option (list delta)) : 
   | _, _ => false
   end.
 
+Definition man_view (m : manifest) : N * N * list (N * N * N * N * N) * N :=
+  (m_version m, m_rid m,
+   map (λ s, (si_id s, si_count s, si_size s, si_min s, si_max s)) (m_segs m), m_next m).
+Definition final_ok (st : gmap name (sobj obj)) (f : option (N * N * list (N * N * N * N * N) * N)) : bool :=
+  match st !! NMan, f with
+  | None, None => true
+  | Some (Whole (OMan m)), Some x =>
+      bool_decide (man_view m = x) &&
+      forallb (λ s, bool_decide (si_key s = NSeg (si_id s))) (m_segs m) &&
+      bool_decide (m_ck m = None)
+  | _, _ => false
+  end.
+
 Definition check_with (v : variant) (k : case12) : bool :=
   let r := run_persist (cfg_of v k) RID ∅ (k_ops k) (map snd (k_log k)) in
+  final_ok (w_store (s_w r)) (k_final k) &&
   bool_decide (rev (w_log (s_w r)) = k_log k) &&
   bool_decide (w_io (s_w r) = []) &&
   negb (w_crashed (s_w r)) &&
